@@ -37,8 +37,6 @@ def _classify_key(pname, body):
         # key true <=> eventless (c[3]) ; we report "True means evented"
         return ('has_event', not c[3])
     s = q.unparse(body)
-    if s == pname + '.eventless':
-        return ('has_event', False)
     if s == pname + '.priority':
         return ('priority', -1 if neg else 1)
     if s == pname + '.source':
@@ -106,6 +104,14 @@ def rules_selection(run):
                   'candidate filter = source active and (eventless or names the event)',
                   'the condition under which a transition becomes a candidate differs from the documented filter '
                   '(atoms: %s)' % vs, ap)
+
+    tc = run.prog.cls('Transition')
+    for acc, fld in (('eventless', 'self.event'), ('internal', 'self._target')):
+        m = tc.methods.get(acc)
+        rets = [n for n in q.walk(m.node, False) if isinstance(n, ast.Return)] if m is not None else []
+        run.check(m is not None and m.is_property and len(rets) == 1 and q.unparse(rets[0].value) == fld + ' is None', r, 'Transition.' + acc,
+                  'Transition.%s is the accessor for `%s is None`' % (acc, fld), 'accessor redefined: conditions written with it no longer mean what the rules assume',
+                  m.node if m is not None else tc.node)
 
     # ---- C01.2 grouping nesting and direction
     r = run.rule('C01.2', 'groupings nest as has-event > depth > source > priority and, under the declared defaults, put '
@@ -185,118 +191,161 @@ def rules_selection(run):
     for b in brk:
         run.check(b in good, r, fi.short, '(a) exit condition ' + str(guard_atoms(b, stop=L_ev)),
                   'an exit of the event-class loop depends on something else than the selection being non-empty', b)
-    # the selected list: appended where?
-    sel_app = [c for c in q.calls(F) if isinstance(c.func, ast.Attribute) and c.func.attr == 'append'
+    # the selected list: fed where?  form A: append(t) + found flag;  form B: enabled = [t for t in class if ..]; extend(enabled)
+    sel_app = [c for c in q.calls(F) if isinstance(c.func, ast.Attribute) and c.func.attr in ('append', 'extend')
                and isinstance(c.func.value, ast.Name) and c.func.value.id == sel]
-    run.check(len(sel_app) == 1, r, fi.short, 'single selection site', 'expected one append to the selected list', F)
+    run.check(len(sel_app) == 1, r, fi.short, 'single selection site', 'expected one append/extend to the selected list', F)
     src_t = L_src.target
     srcv = src_t.elts[0].id if isinstance(src_t, ast.Tuple) and isinstance(src_t.elts[0], ast.Name) else None
     run.anchor(srcv, r, 'source label of the source grouping')
-    # ignore set
-    ign_adds = [c for c in q.calls(L_src) if isinstance(c.func, ast.Attribute) and c.func.attr == 'add' and isinstance(c.func.value, ast.Name)]
+    pr_t = L_pr.target
+    grp = pr_t.elts[1].id if isinstance(pr_t, ast.Tuple) and len(pr_t.elts) == 2 and isinstance(pr_t.elts[1], ast.Name) else None
+    # ignore set: receiver of .add / .update inside the source loop
+    ign_adds = [c for c in q.calls(L_src) if isinstance(c.func, ast.Attribute) and c.func.attr in ('add', 'update') and isinstance(c.func.value, ast.Name)]
     ign_names = {c.func.value.id for c in ign_adds}
     run.check(len(ign_names) == 1, r, fi.short, 'one ignore set', 'expected exactly one ignore set', L_src)
     ign = next(iter(ign_names)) if ign_names else None
-    # found flag
-    flag = None
-    for ap in sel_app:
-        blk = q.enclosing_stmt(ap)
-        par = blk._parent
-        body = par.body if hasattr(par, 'body') and blk in par.body else []
-        for st in body:
-            if isinstance(st, ast.Assign) and isinstance(st.targets[0], ast.Name) and isinstance(st.value, ast.Constant) and st.value.value is True:
-                flag = st.targets[0].id
-    run.check(flag is not None, r, fi.short, 'found flag set at the selection site', 'no flag is set where a transition is selected', F)
-    if flag and ign:
-        # (d) selection condition
-        for ap in sel_app:
-            tl = q.enclosing(ap, ast.For)
-            tv = tl.target.id if isinstance(tl.target, ast.Name) else None
-            run.check(ap.args and isinstance(ap.args[0], ast.Name) and ap.args[0].id == tv, r, fi.short,
-                      '(d) the examined transition is the one selected', 'appended object must be the loop transition', ap)
 
-            def classify(op, l, r_, e, tv=tv):
-                if op == 'is' and l == tv + '.guard' and r_ == 'None':
-                    return 'NOGUARD'
-                if op == 'truthy' and l == tv + '.guard':
-                    return ('NOGUARD', False)
-                if op == 'truthy' and isinstance(e, ast.Call) and 'evaluate_guard' in q.unparse(e.func):
-                    return 'GUARDTRUE'
-                if op == 'in' and l == srcv and r_ == ign:
-                    return 'IGNORED'
-                return None
-            ba = q.BoolAbs(classify)
+    def sel_classify(tv):
+        def classify(op, l, r_, e):
+            if op == 'is' and l == tv + '.guard' and r_ == 'None':
+                return 'NOGUARD'
+            if op == 'truthy' and l == tv + '.guard':
+                return ('NOGUARD', False)
+            if op == 'truthy' and isinstance(e, ast.Call) and 'evaluate_guard' in q.unparse(e.func):
+                return 'GUARDTRUE'
+            if op == 'in' and l == srcv and r_ == ign:
+                return 'IGNORED'
+            return None
+        return classify
+    FOUND = None
+    for ap in sel_app[:1]:
+        if ap.func.attr == 'append':
+            # ---- form A
+            tl = q.enclosing(ap, ast.For)
+            tv = tl.target.id if tl is not None and isinstance(tl.target, ast.Name) else None
+            run.check(tv and ap.args and isinstance(ap.args[0], ast.Name) and ap.args[0].id == tv and tl is not None and isinstance(strip_cast(tl.iter), ast.Name)
+                      and strip_cast(tl.iter).id == grp, r, fi.short, '(d) the examined transition is the one selected', 'appended object must be the loop transition of the priority class', ap)
+            flag = None
+            blk = q.enclosing_stmt(ap)
+            par = blk._parent
+            body = par.body if hasattr(par, 'body') and blk in par.body else []
+            for st in body:
+                if isinstance(st, ast.Assign) and isinstance(st.targets[0], ast.Name) and isinstance(st.value, ast.Constant) and st.value.value is True:
+                    flag = st.targets[0].id
+            run.check(flag is not None, r, fi.short, 'found flag set at the selection site', 'no flag is set where a transition is selected', F)
+            if not (flag and ign and tv):
+                continue
+            FOUND = ('truthy', flag, '')
+            ba = q.BoolAbs(sel_classify(tv))
             vs, sat = ba.table(guards(ap, stop=L_src))
             bad = q.table_equals(vs, sat, lambda v: not v.get('IGNORED', False) and (v.get('NOGUARD', False) or v.get('GUARDTRUE', False)))
             run.check(not bad and {'NOGUARD', 'GUARDTRUE', 'IGNORED'} <= set(vs), r, fi.short,
-                      '(d) selected iff source not ignored and (no guard or guard true)',
-                      'selection condition differs (atoms %s)' % vs, ap)
+                      '(d) selected iff source not ignored and (no guard or guard true)', 'selection condition differs (atoms %s)' % vs, ap)
             flag_sets = [st for st, v in q.assigned_value(F, flag) if isinstance(v, ast.Constant) and v.value is True]
             for st in flag_sets:
                 run.check(guards(st, stop=L_src) == guards(q.enclosing_stmt(ap), stop=L_src), r, fi.short,
                           '(d) found flag set under the selection condition', 'the found flag must be set exactly where a transition is selected', st)
-        resets = [st for st, v in q.assigned_value(F, flag) if isinstance(v, ast.Constant) and v.value is False]
-        run.check(len(resets) == 1 and q.enclosing(resets[0], (ast.For, ast.While)) is L_src and q.dominates(F, resets[0], L_pr), r,
-                  fi.short, 'found flag reset per source', 'the flag must be reset once per source, before its priority classes', L_src)
+            resets = [st for st, v in q.assigned_value(F, flag) if isinstance(v, ast.Constant) and v.value is False]
+            run.check(len(resets) == 1 and q.enclosing(resets[0], (ast.For, ast.While)) is L_src and q.dominates(F, resets[0], L_pr), r,
+                      fi.short, 'found flag reset per source', 'the flag must be reset once per source, before its priority classes', L_src)
+            inner = [n for n in L_pr.body if isinstance(n, ast.For)]
+        else:
+            # ---- form B
+            a0 = ap.args[0] if ap.args else None
+            comp = None
+            ev_name = None
+            if isinstance(a0, ast.Name):
+                defs = [(st, v) for st, v in q.assigned_value(F, a0.id)]
+                if len(defs) == 1 and isinstance(strip_cast(defs[0][1]), ast.ListComp) and q.in_block(defs[0][0], L_pr.body) and q.dominates(F, defs[0][0], ap):
+                    comp = strip_cast(defs[0][1])
+                    ev_name = a0.id
+            good = comp is not None and len(comp.generators) == 1 and isinstance(comp.generators[0].target, ast.Name) and \
+                q.unparse(comp.elt) == comp.generators[0].target.id and isinstance(strip_cast(comp.generators[0].iter), ast.Name) and strip_cast(comp.generators[0].iter).id == grp
+            run.check(good, r, fi.short, '(d) the transitions selected are the enabled ones of the priority class', 'selection does not come from a filter of the priority class', ap)
+            if not (good and ign):
+                continue
+            tv = comp.generators[0].target.id
+            FOUND = ('truthy', ev_name, '')
+            ba = q.BoolAbs(sel_classify(tv))
+            conds = [(c_, True, 'comp') for c_ in comp.generators[0].ifs] + [g for g in guards(defs[0][0], stop=L_src)]
+            vs, sat = ba.table(conds)
+            bad = q.table_equals(vs, sat, lambda v: not v.get('IGNORED', False) and (v.get('NOGUARD', False) or v.get('GUARDTRUE', False)))
+            run.check(not bad and {'NOGUARD', 'GUARDTRUE', 'IGNORED'} <= set(vs), r, fi.short,
+                      '(d) selected iff source not ignored and (no guard or guard true)', 'selection condition differs (atoms %s)' % vs, ap)
+            at = guard_atoms(ap, stop=L_pr)
+            run.check(at in ([FOUND], []), r, fi.short, '(d) every enabled transition of the class is selected', 'selection is conditional on %s' % at, ap)
+            inner = []
+    if FOUND is not None:
+        flag = FOUND[1]
         # (b) break of the priority loop
         brk = [n for n in ast.walk(L_pr) if isinstance(n, ast.Break) and q.enclosing(n, (ast.For, ast.While)) is L_pr]
-        goodb = [b for b in brk if guard_atoms(b, stop=L_pr) == [('truthy', flag, '')]]
+        goodb = [b for b in brk if guard_atoms(b, stop=L_pr) == [FOUND]]
         run.check(len(goodb) == 1 and len(brk) == 1, r, fi.short, '(b) lower priority classes skipped once found',
                   'the priority loop must stop exactly when the current class selected something', L_pr)
-        inner = [n for n in L_pr.body if isinstance(n, ast.For)]
         for b in goodb:
             for il in inner:
                 run.check(q.strictly_before(F, il, b) and not q.in_node(b, il), r, fi.short,
                           '(b) class fully examined before the exit', 'all transitions of the class must be examined before leaving', b)
-        # (c) ignore adds under found
+        # (c) ignore-set updates under found
         src_added = False
         sel_added = False
+
+        def selector_ok(selector):
+            selector = strip_cast(selector)
+            alts = []
+            if isinstance(selector, ast.Name):
+                for st, v in q.assigned_value(F, selector.id):
+                    v = strip_cast(v)
+                    if isinstance(v, ast.IfExp):
+                        c_ = q.canon_atom(v.test)
+                        if c_ and c_[0] == 'truthy' and c_[1] == 'inner_first':
+                            alts.append((v.body if c_[3] else v.orelse, [('truthy', 'inner_first', '')]))
+                            alts.append((v.orelse if c_[3] else v.body, [('falsy', 'inner_first', '')]))
+                        else:
+                            alts.append((v, [('?', q.unparse(v.test), '')]))
+                    else:
+                        alts.append((v, guard_atoms(st)))
+            elif isinstance(selector, ast.IfExp):
+                c_ = q.canon_atom(selector.test)
+                if c_ and c_[0] == 'truthy' and c_[1] == 'inner_first':
+                    alts.append((selector.body if c_[3] else selector.orelse, [('truthy', 'inner_first', '')]))
+                    alts.append((selector.orelse if c_[3] else selector.body, [('falsy', 'inner_first', '')]))
+            else:
+                alts.append((selector, [('truthy', 'inner_first', '')]) if (dotted(selector) or '').endswith('.ancestors_for') else (selector, []))
+            okk = len(alts) >= 1
+            kinds_ = set()
+            for v, at2 in alts:
+                sh = dotted(strip_cast(v)) or ''
+                if sh.endswith('.ancestors_for'):
+                    okk = okk and at2 == [('truthy', 'inner_first', '')]
+                    kinds_.add('anc')
+                elif sh.endswith('.descendants_for'):
+                    okk = okk and at2 == [('falsy', 'inner_first', '')]
+                    kinds_.add('desc')
+                else:
+                    okk = False
+            return okk and 'anc' in kinds_
         for c in ign_adds:
             at = guard_atoms(c, stop=L_pr)
-            run.check(at == [('truthy', flag, '')] and q.in_block(c, L_pr.body), r, fi.short,
+            run.check(at == [FOUND] and q.in_block(c, L_pr.body), r, fi.short,
                       '(c) ignore-set update under found: ' + q.unparse(c), 'the ignore set may only grow when the class selected something '
                       '(after guards are known)', c)
-            a0 = c.args[0] if c.args else None
-            if isinstance(a0, ast.Name) and a0.id == srcv:
+            a0 = strip_cast(c.args[0]) if c.args else None
+            if c.func.attr == 'add' and isinstance(a0, ast.Name) and a0.id == srcv:
                 src_added = True
-            lp2 = q.enclosing(c, ast.For)
-            if lp2 is not None and lp2 is not L_pr and isinstance(a0, ast.Name) and isinstance(lp2.target, ast.Name) and a0.id == lp2.target.id:
-                it = strip_cast(lp2.iter)
-                if isinstance(it, ast.Call) and it.args and isinstance(it.args[0], ast.Name) and it.args[0].id == srcv:
-                    selector = strip_cast(it.func)
-                    alts = []
-                    if isinstance(selector, ast.Name):
-                        for st, v in q.assigned_value(F, selector.id):
-                            v = strip_cast(v)
-                            if isinstance(v, ast.IfExp):
-                                c_ = q.canon_atom(v.test)
-                                if c_ and c_[0] == 'truthy' and c_[1] == 'inner_first':
-                                    alts.append((v.body if c_[3] else v.orelse, [('truthy', 'inner_first', '')]))
-                                    alts.append((v.orelse if c_[3] else v.body, [('falsy', 'inner_first', '')]))
-                                else:
-                                    alts.append((v, [('?', q.unparse(v.test), '')]))
-                            else:
-                                alts.append((v, guard_atoms(st)))
-                    elif isinstance(selector, ast.IfExp):
-                        c_ = q.canon_atom(selector.test)
-                        if c_ and c_[0] == 'truthy' and c_[1] == 'inner_first':
-                            alts.append((selector.body if c_[3] else selector.orelse, [('truthy', 'inner_first', '')]))
-                            alts.append((selector.orelse if c_[3] else selector.body, [('falsy', 'inner_first', '')]))
-                    else:
-                        alts.append((selector, [('truthy', 'inner_first', '')]) if (dotted(selector) or '').endswith('.ancestors_for') else (selector, []))
-                    okk = len(alts) >= 1
-                    kinds = set()
-                    for v, at2 in alts:
-                        sh = dotted(strip_cast(v)) or ''
-                        if sh.endswith('.ancestors_for'):
-                            okk = okk and at2 == [('truthy', 'inner_first', '')]
-                            kinds.add('anc')
-                        elif sh.endswith('.descendants_for'):
-                            okk = okk and at2 == [('falsy', 'inner_first', '')]
-                            kinds.add('desc')
-                        else:
-                            okk = False
-                    sel_added = okk and 'anc' in kinds
+            if c.func.attr == 'update' and isinstance(a0, (ast.List, ast.Tuple, ast.Set)) and any(isinstance(e, ast.Name) and e.id == srcv for e in a0.elts):
+                src_added = True
+            # the selector applied to the source: either iterated with add(), or handed to update()
+            call_ = None
+            if c.func.attr == 'add':
+                lp2 = q.enclosing(c, ast.For)
+                if lp2 is not None and lp2 is not L_pr and isinstance(a0, ast.Name) and isinstance(lp2.target, ast.Name) and a0.id == lp2.target.id:
+                    call_ = strip_cast(lp2.iter)
+            elif isinstance(a0, ast.Call):
+                call_ = a0
+            if isinstance(call_, ast.Call) and call_.args and isinstance(call_.args[0], ast.Name) and call_.args[0].id == srcv and selector_ok(call_.func):
+                sel_added = True
         run.check(src_added, r, fi.short, '(c) the source itself is ignored after a hit', 'source must join the ignore set', L_pr)
         run.check(sel_added, r, fi.short, '(c) ancestors (inner-first) / descendants (outer-first) of the source are ignored',
                   'the states given by the inner-first selector applied to the source must join the ignore set', L_pr)
@@ -317,8 +366,14 @@ def rules_selection(run):
         a1 = q.arg(g, 1, 'event')
         a0 = q.arg(g, 0, 'transition')
         tl = q.enclosing(g, ast.For)
-        run.check(isinstance(a0, ast.Name) and isinstance(tl.target, ast.Name) and a0.id == tl.target.id, r, fi.short,
-                  'guard evaluated on the examined transition', 'evaluate_guard must receive the loop transition', g)
+        comp_ = q.enclosing(g, (ast.ListComp, ast.GeneratorExp))
+        examined = None
+        if comp_ is not None and q.in_node(comp_, tl):
+            examined = comp_.generators[0].target.id if isinstance(comp_.generators[0].target, ast.Name) else None
+        elif tl is not None and isinstance(tl.target, ast.Name):
+            examined = tl.target.id
+        run.check(isinstance(a0, ast.Name) and examined is not None and a0.id == examined, r, fi.short,
+                  'guard evaluated on the examined transition', 'evaluate_guard must receive the transition being examined', g)
         exprs = [a1]
         if isinstance(a1, ast.Name):
             exprs = [v for st, v in q.assigned_value(F, a1.id)]
